@@ -10095,6 +10095,13 @@ def aten_unflatten(self: TReal, dim: int, sizes: Sequence[INT64]):
     if dim < 0:
         dim = self_rank + dim
 
+    if all(isinstance(size, int) for size in sizes) and -1 in sizes and isinstance(self.shape[dim], int):
+        # Infer the -1 within the unflattened dimension, as PyTorch does. Leaving it to Reshape would
+        # infer it from the whole tensor, which is ambiguous when another dimension is 0.
+        known = math.prod(size for size in sizes if size != -1)
+        if known > 0:
+            sizes = [self.shape[dim] // known if size == -1 else size for size in sizes]
+
     head_start_idx = op.Constant(value_ints=[0])
     head_end_idx = op.Reshape(dim, op.Constant(value_ints=[1]))
     head_part_rank = op.Slice(self_size, head_start_idx, head_end_idx)
